@@ -204,9 +204,12 @@ type argGen struct {
 
 func (a *argGen) pick(l ...string) string { return l[a.e.rng.Intn(len(l))] }
 
+// idTok: an AMF-UE-NGAP-ID (ub = 40) or RAN-UE-NGAP-ID (ub = 32): boundary values inside and just outside the range,
+// about one in six outside.
 func (a *argGen) idTok(ub uint) string {
 	r := a.e.rng
-	switch r.Intn(12) {
+	max := int64(1)<<ub - 1
+	switch r.Intn(18) {
 	case 0:
 		return "i0"
 	case 1:
@@ -214,22 +217,27 @@ func (a *argGen) idTok(ub uint) string {
 	case 2:
 		return "i4294967295"
 	case 3:
-		return "i4294967296"
+		return "i" + i(max)
 	case 4:
-		return "i1099511627775"
+		return "i" + i(max-1)
 	case 5:
-		return "i1099511627776"
+		if ub > 32 {
+			return "i4294967296"
+		}
+		return "i2147483648"
 	case 6:
-		return "i-1"
+		return "i" + i(max+1) // 2^32 resp. 2^40: first value outside
 	case 7:
-		return "i" + i(int64(r.Uint64()>>1)) // far out of range
+		return "i-1"
+	case 8:
+		return a.pick("i1099511627776", "i1099511627775", "i4294967296", "i"+i(int64(r.Uint64()>>1)), "i-"+i(int64(r.Uint64()>>1)))
 	}
-	return "i" + i(int64(r.Uint64()&(1<<ub-1)))
+	return "i" + i(int64(r.Uint64()&uint64(max)))
 }
 
 func (a *argGen) psiTok() string {
 	r := a.e.rng
-	switch r.Intn(10) {
+	switch r.Intn(14) {
 	case 0:
 		return "i0"
 	case 1:
@@ -239,9 +247,7 @@ func (a *argGen) psiTok() string {
 	case 3:
 		return "i256"
 	case 4:
-		return "i-1"
-	case 5:
-		return "i" + i(int64(r.Intn(100000)))
+		return a.pick("i-1", "i257", "i65536", "i"+i(int64(r.Intn(100000))))
 	}
 	return "i" + i(int64(r.Intn(256)))
 }
@@ -417,11 +423,15 @@ func (a *argGen) args(en *bld.Entry) []string {
 		switch r.Intn(12) {
 		case 0:
 			bl = a.e.rng.Intn(2)*12 + 21 // 21 or 33: outside SIZE(22..32)
+			n = 5
 		case 1:
-			n = 2 + 3*r.Intn(2) // 2 or 5 octets
+			bl = 22 + r.Intn(3)
+			n = 2 // too few octets for the bit length
 		case 2:
 			bl = 0
 		}
+		// a bit length above 32 together with fewer octets than it needs is not generated: the encoder model
+		// (Model/AperEnc.lean, scope: regular BitStrings) orders the two failures differently from marshal.go
 		out[gi] = a.bytesTok(n)
 		out[bi] = "i" + strconv.Itoa(bl)
 	}
